@@ -34,9 +34,23 @@ def _flip(b, bit):
     return bytes(m)
 
 
+def _mined():
+    import json
+    import os
+
+    with open(os.path.join(os.path.dirname(os.path.dirname(__file__)), "data", "srp_corpus.json")) as f:
+        return json.load(f)
+
+
+# configs 3.. : directed SRP exchanges whose A / B / S / K / M1 / M2 / u start with a zero byte (inputs mined with the reference only)
+for _m in _mined():
+    if _m["target"] in ("A", "B", "S", "K", "M1", "M2", "u", "A00"):
+        CONFIGS.append(dict(code=_m["code"], ios_id="decc6fa3-de3e-41c9-adba-ef7409821bfc", acc_id="AA:BB:CC:DD:EE:FF", with_auth=True, srp=_m))
+
+
 def _run(cfg, style, seed):
     c = CONFIGS[cfg]
-    return SetupRun(f"{seed}|{cfg}", style, code=c["code"], ios_id=c["ios_id"], acc_id=c["acc_id"].encode(), with_auth=c["with_auth"])
+    return SetupRun(f"{seed}|{cfg}", style, code=c["code"], ios_id=c["ios_id"], acc_id=c["acc_id"].encode(), with_auth=c["with_auth"], srp=c.get("srp"))
 
 
 def classify_m6(wire, acc: hap.SetupAccessory, honest_wire):
@@ -145,6 +159,10 @@ def case_setup(p):
             items = [(hap.T_STATE, b"\x04"), (hap.T_PROOF, b"")]
         elif fault == "m4-proof-trunc":
             items = [(hap.T_STATE, b"\x04"), (hap.T_PROOF, proof[:arg])]
+        elif fault == "m4-proof-tail":
+            items = [(hap.T_STATE, b"\x04"), (hap.T_PROOF, proof[-arg:])]
+            if not any(proof[:-arg]):
+                return []  # the dropped leading bytes are all zero: numerically the same proof
         elif fault == "m4-proof-is-m1":
             items = [(hap.T_STATE, b"\x04"), (hap.T_PROOF, run.m3[hap.T_PROOF])]
         elif fault == "m4-proof-zero":
@@ -298,7 +316,7 @@ def run(ctx):
         fl += [("m2-B-special", s) for s in ("zero", "N", "one", "short", "empty")]
         fl += [("m4-proof-bitflip", b) for b in bitsel(512)]
         fl += [("m4-no-proof", None), ("m4-empty-proof", None), ("m4-proof-is-m1", None), ("m4-proof-zero", None), ("m4-wrong-code-proof", None), ("m4-proof-of-other-exchange", None)]
-        fl += [("m4-proof-trunc", n) for n in (1, 32, 63)]
+        fl += [("m4-proof-trunc", n) for n in (1, 32, 63)] + [("m4-proof-tail", n) for n in (1, 2, 32, 63)]
         fl += [("wrongcode", c) for c in ("111-22-334", "000-00-001", "11122333")]
         fl += [("m6-wire-bitflip", b) for b in bitsel(m6len * 8)]
         fl += [("m6-trunc", n) for n in (range(0, m6len, 5) if quick else range(m6len))]
@@ -311,6 +329,15 @@ def run(ctx):
         fl += [("m6-sig-with-x", x) for x in ("ctrl", "enc", "K", "none")] + [("m6-sig-trunc", n) for n in (0, 32, 63)]
         for style in pairdrv.STYLES:
             plist += [{"cfg": cfg, "style": style, "fault": f, "arg": a} for f, a in fl]
+    # directed SRP boundary exchanges: honest run + one fault per stage (the value-level sweep is C02's; here the *use* of K, A, B, proofs in the protocol)
+    seen_t = {}
+    for cfg in range(3, len(CONFIGS)):
+        t = CONFIGS[cfg]["srp"]["target"]
+        seen_t[t] = seen_t.get(t, 0) + 1
+        if quick and seen_t[t] > 1:
+            continue
+        for style in pairdrv.STYLES:
+            plist += [{"cfg": cfg, "style": style, "fault": f, "arg": a} for f, a in (("honest", None), ("m4-proof-bitflip", 7), ("m6-sig-bitflip", 9), ("m6-wrong-key", None), ("m4-proof-tail", 63))]
     ctx.pmap(_work, [plist[i : i + 12] for i in range(0, len(plist), 12)])
     ctx.exhaustive = True
     ctx.bounds.update(configs=len(cfgs), styles=list(pairdrv.STYLES), bits="one bit per byte (seed-selected)" if quick else "all bits")
